@@ -397,3 +397,94 @@ Definition validatePermissions (adec : bytes -> bytes -> bytes) (key perms : byt
 (* /P as written by newEncryptDict (int16(ctx.Permissions)) and reported by api.GetPermissions (int16(ctx.E.P)) *)
 Definition p_written (requested : Z) : Z := wrapS 16 requested.
 Definition p_reported (p_in_dict : Z) : Z := wrapS 16 p_in_dict.
+
+(* ------------------------------------------------------------------ passwords, R2-R4 (Algorithms 2, 3, 4/5, 6, 7)
+   crypto.go: encKey, key, o, u, validateUserPassword, validateOwnerPassword.  A password is the byte
+   string []byte(pw) of the Go string.  Three sites pad/truncate a password to 32 bytes: encKey (2a),
+   key (3a) and o (3e); each is transcribed separately and calls pad32. *)
+
+Definition pad_const : bytes :=
+  [40; 191; 78; 94; 78; 117; 138; 65; 100; 0; 78; 86; 255; 250; 1; 8;
+   46; 46; 0; 182; 208; 104; 62; 128; 47; 12; 169; 254; 100; 83; 105; 122].
+
+(* if len(pw) >= 32 { pw = pw[:32] } else { pw = append(pw, pad[:32-len(pw)]...) } *)
+Definition pad32 (pw : bytes) : bytes :=
+  if 32 <=? lenN pw then firstn 32 pw else pw ++ firstn (N.to_nat (32 - lenN pw)) pad_const.
+
+Fixpoint iterN {A : Type} (f : A -> A) (n : nat) (x : A) : A :=
+  match n with O => x | S n' => iterN f n' (f x) end.
+
+Definition le_bytes4 (z : Z) : bytes :=
+  let u := (z mod 4294967296)%Z in
+  [Z.to_N (u mod 256); Z.to_N ((u / 256) mod 256); Z.to_N ((u / 65536) mod 256); Z.to_N ((u / 16777216) mod 256)].
+
+(* encKey (Algorithm 2) *)
+Definition encKey (md5 : bytes -> bytes) (upw o_entry : bytes) (p : Z) (id : bytes) (r : Z) (emd : bool) (l : Z) : bytes :=
+  let h := md5 (pad32 upw ++ o_entry ++ le_bytes4 p ++ id ++
+                (if (r =? 4)%Z && negb emd then [255; 255; 255; 255] else [])) in
+  let n := Z.to_nat (l / 8) in
+  if (3 <=? r)%Z then firstn n (iterN (fun k => md5 (firstn n k)) 50 h) else firstn 5 h.
+
+(* key (Algorithm 3 a-d): the owner password, or the user password when there is none *)
+Definition ownerKey (md5 : bytes -> bytes) (opw upw : bytes) (r l : Z) : bytes :=
+  let pw := match opw with [] => upw | _ => opw end in
+  let k := md5 (pad32 pw) in
+  if (3 <=? r)%Z then firstn (Z.to_nat (l / 8)) (iterN md5 50 k) else firstn 5 k.
+
+Definition xorkey (key : bytes) (i : N) : bytes := map (fun b => N.lxor b i) key.
+
+Fixpoint rc4_chain (ks : list bytes) (d : bytes) : res bytes :=
+  match ks with
+  | [] => Ok d
+  | k :: t => match rc4 k d with Err => Err | Ok c => rc4_chain t c end
+  end.
+
+Definition up_1_19 : list N := [1; 2; 3; 4; 5; 6; 7; 8; 9; 10; 11; 12; 13; 14; 15; 16; 17; 18; 19].
+Definition down_19_0 : list N := [19; 18; 17; 16; 15; 14; 13; 12; 11; 10; 9; 8; 7; 6; 5; 4; 3; 2; 1; 0].
+
+(* o (Algorithm 3 e-g): RC4 of the padded USER password under the owner key(s) *)
+Definition compute_o (md5 : bytes -> bytes) (opw upw : bytes) (r l : Z) : res bytes :=
+  let key := ownerKey md5 opw upw r l in
+  rc4_chain (key :: (if (3 <=? r)%Z then map (xorkey key) up_1_19 else [])) (pad32 upw).
+
+(* u (Algorithms 4/5): returns (U, file key) *)
+Definition compute_u (md5 : bytes -> bytes) (upw o_entry : bytes) (p : Z) (id : bytes) (r : Z) (emd : bool) (l : Z)
+  : res (bytes * bytes) :=
+  let key := encKey md5 upw o_entry p id r emd l in
+  match rc4 key [] with
+  | Err => Err
+  | Ok _ =>
+      match (if (r =? 2)%Z then rc4 key pad_const
+             else if ((r =? 3) || (r =? 4))%Z
+                  then rc4_chain (key :: map (xorkey key) up_1_19) (md5 (pad_const ++ id))
+                  else Ok []) with
+      | Err => Err
+      | Ok u => Ok (u ++ repeatN 0 (32 - length u), key)
+      end
+  end.
+
+(* validateUserPassword (Algorithm 6): (ok, ctx.EncKey) *)
+Definition validateUser (md5 : bytes -> bytes) (upw o_entry u_entry : bytes) (p : Z) (id : bytes) (r : Z) (emd : bool) (l : Z)
+  : res (bool * bytes) :=
+  match compute_u md5 upw o_entry p id r emd l with
+  | Err => Err
+  | Ok (u, key) =>
+      Ok ((if (r =? 2)%Z then bytes_eqb u_entry u
+           else if ((r =? 3) || (r =? 4))%Z
+                then (16 <=? lenN u_entry) && bytes_eqb (firstn 16 u_entry) (firstn 16 u)
+                else false), key)
+  end.
+
+(* the RC4 keys that undo /O: validateOwnerPassword 7b *)
+Definition recover_chain (key : bytes) (r : Z) : list bytes :=
+  if (r =? 2)%Z then [key]
+  else if ((r =? 3) || (r =? 4))%Z then map (xorkey key) down_19_0 else [].
+
+(* validateOwnerPassword (Algorithm 7): recover the user password from /O, then Algorithm 6 with it *)
+Definition validateOwner (md5 : bytes -> bytes) (opw upw_ctx o_entry u_entry : bytes) (p : Z) (id : bytes) (r : Z) (emd : bool) (l : Z)
+  : res (bool * bytes) :=
+  let key := ownerKey md5 opw upw_ctx r l in
+  match rc4_chain (recover_chain key r) o_entry with
+  | Err => Err
+  | Ok rec => validateUser md5 rec o_entry u_entry p id r emd l
+  end.
